@@ -104,12 +104,13 @@ P("C11",
   technique="stateful PBT (rapid state machine of 1..3 SignOCI calls) over a retaining scripted repository, an in-memory store and an on-disk OCI layout; tree-diff and deep-snapshot oracles",
   level_text="Exploration over call sequences: signer input, pushed subject/annotations, and the complete before/after state of repository, descriptors and option maps are compared with pristine copies.",
   level_note="Trusts oras-go's OCI layout implementation and the harness's tree snapshot.",
-  health={"repo=scripted": 20, "repo=oci-layout": 20, "calls>=2": 20, "meta=colliding": 5, "meta=reserved": 5, "ref=digest-mismatch": 5})
+  health={"repo=scripted": 20, "repo=oci-layout": 20, "calls>=2": 20, "meta=colliding": 5, "meta=reserved": 5, "ref=digest-mismatch": 5, "signer-annotations=clashing": 100})
 
 P("C12",
   technique="robustness PBT + fuzzing: structured mutations of valid inputs and the full verifier-configuration cross product run under recover with allocation accounting; hostile on-disk OCI layouts and an in-process hostile HTTP registry behind the real oras client; four native fuzz targets in thorough",
   level_text="Exploration: every public entry point x input kind x verifier configuration is called under recover; a panic, a runaway allocation (explicit threshold) or an inconsistent (outcome, error) pair is a violation.",
-  level_note="'Runaway allocation' is an explicit threshold (512 MiB for inputs < 4 MiB), not a proof of boundedness; panics in goroutines the library might spawn would crash the worker (reported as inconclusive).",
+  level_note="'Runaway allocation' is an explicit threshold (512 MiB for inputs < 4 MiB), not a proof of boundedness; a worker ended by the Go runtime's fatal out-of-memory error counts as a violation when the allocating goroutine's stack is inside notation-go (the driver reads the crash report; the replay re-runs the shard); other worker deaths (panics in goroutines the library might spawn) are reported as inconclusive.",
+  crash_is_violation=True,
   health={"entry=verifier.Verify": 50, "entry=verifier.VerifyBlob": 50, "entry=notation.Verify": 20, "entry=notation.VerifyBlob": 20, "entry=SkipVerify": 20,
           "config-cross": 50, "parsed": 50, "envelope-content": 50, "outcome=ok": 50, "outcome=err": 50, "resigned": 50,
           "family=1": 1000, "family=2": 1000, "family=4": 100, "family=5": 1000, "family=6": 100,
@@ -167,7 +168,7 @@ P("C16",
   technique="PBT over a path-traversal name grammar with planted sentinel executables and decoy directories inside a sacrificial tree; no-execution / no-change tree-diff oracle; end-to-end through verifier.Verify with the real CLIManager",
   level_text="Exploration: for every generated name and operation the whole sacrificial base is snapshotted before/after; a marker written by a sentinel or any tree change for a non-single-component name is a violation; positive control proves executions are observable.",
   level_note="Containment: '..' depth is bounded below the root depth and every case whose join would leave the sacrificial base is skipped and counted.",
-  health={"name=traversal": 50, "name=plain": 20, "op=get": 20, "op=uninstall": 20, "op=install-file": 10, "op=install-dir": 10, "op=verify-e2e": 10, "op=list": 10},
+  health={"name=traversal": 50, "name=plain": 20, "op=get": 20, "op=uninstall": 20, "op=install-file": 10, "op=install-dir": 10, "op=verify-e2e": 10, "op=list": 10, "namekind=long-then-traversal": 100},
   shards={"quick": 8, "thorough": 16})
 
 P("C17",
@@ -180,7 +181,7 @@ P("C17",
           "stdout=valid": 20, "stdout=nonjson": 5, "stdout=empty": 5, "stdout=fieldtype": 5, "stdout=wrongname": 2, "stdout=badversion": 2,
           "stdout=missing-name": 2, "stdout=empty-url": 2, "stdout=missing-supportedContractVersions": 2, "stdout=empty-capabilities": 2,
           "stderr=structured": 20, "stderr=nonjson": 10, "stderr=empty": 10, "errcode=THROTTLED": 2,
-          "stdout=overcap": 1, "stderr=overcap": 1, "timing=descendant": 1, "timing=slow": 1, "timing=cancel": 1, "timing=nodeadline": 1},
+          "stdout=overcap": 1, "stderr=overcap": 1, "timing=descendant": 1, "timing=slow": 1, "timing=cancel": 1, "timing=nodeadline": 1, "interleaved-calls": 10, "concurrent-calls": 1},
   timeout={"quick": 900, "thorough": 5400})
 
 P("C18",
@@ -210,7 +211,7 @@ P("C19",
           "op=push-foreign:layer-ref-no-subject": 30, "op=push-foreign:layer-ref-other-subject": 15, "op=push-foreign:subject-off-digest": 30,
           "op=push-foreign:subject-off-size": 30, "op=push-foreign:subject-off-mediatype": 30,
           "op=push-hostile:zero-layers": 50, "op=push-hostile:two-layers": 50, "op=push-hostile:oversize-blob": 50,
-          "op=push-hostile:oversize-manifest": 10, "op=push-signature:at-manifest-cap": 5, "list-refused:oversize-manifest": 10})
+          "op=push-hostile:oversize-manifest": 10, "op=push-signature:at-manifest-cap": 5, "list-refused:oversize-manifest": 10, "fetch-while-holding-earlier-envelopes": 100, "blob-cap-boundary": 3})
 
 P("C20",
   technique="stateful model-based PBT (rapid state machine Install/Uninstall/Get/List) over a real plugin root with generated script plugins; own semver-precedence implementation; tree-snapshot oracle and metamorphic source-shape relations; differential PBT and native fuzz of the version comparison (verif-tag export) against that implementation",
